@@ -444,6 +444,12 @@ def check(model, rep):
                % (vec[:40], '; '.join('%s is %s' % (k_[:60], v_) for k_, v_ in sorted(pth.facts.items()))[:160], vec[:40]), line=pth.ret_line)
     rep.floor('R07.8', 'success paths of IKFree', n_succ, 1)
 
+    # ---------------------------------------------------------------- R07.10
+    # every exit of the solvers writes the state through FK (R07.4): what FK stores must describe one configuration
+    rep.rule('R07.10', 'Arm.FK, through which every solver exit writes the state, stores the joint vector it evaluated (the clamped one when it clamps) '
+                       'together with the pose of that vector: the state left after a failed solve is coherent')
+    from .c05 import fk_core
+    fk_core(rep, 'R07.10', arm.methods['FK'])
     from .c02 import closure_obligations
     n = closure_obligations(model, rep, 'R07.7', [kc, arm.methods['IK'], arm.methods['constrainedIK']], 'the Newton IK solvers (FKinSpace, JacobianSpace, MatrixLog6, Adjoint, TransInv, IKinSpace)')
     rep.floor('R07.7', 'shared primitives under the IK solvers', len(n), 10)
